@@ -205,10 +205,13 @@ fn main() {
             let thorough = arg(&args, "--tier", "quick") == "thorough";
             let jobs: usize = arg(&args, "--jobs", "16").parse().unwrap();
             let variants: Vec<String> = arg(&args, "--variants", "file,mapped,memory").split(',').map(|x| x.to_string()).collect();
-            let rep = damrun::run(seed, &out, thorough, jobs, &variants, &arg(&args, "--corpus", "/nonexistent"), n, &arg(&args, "--guards", "1111"));
+            let rep = damrun::run(seed, &out, thorough, jobs, &variants, &arg(&args, "--corpus", "/nonexistent"), n, &arg(&args, "--guards", "1111"), arg(&args, "--dbload", "1") == "1");
             write_lines(&format!("{}/cases.txt", out), &rep.cases);
             write_lines(&format!("{}/impl.txt", out), &rep.imp);
             write_lines(&format!("{}/oracle.txt", out), &rep.oracle);
+            write_lines(&format!("{}/cases_db.txt", out), &rep.cases_db);
+            write_lines(&format!("{}/impl_db.txt", out), &rep.imp_db);
+            write_lines(&format!("{}/desc_db.txt", out), &rep.desc_db);
             write_stats(&format!("{}/stats.json", out), &rep.stats, rep.evaluations, rep.nontrivial, &rep.samples);
         }
         "c12" => {
